@@ -217,9 +217,17 @@ fn resource_leaf(framed: bool) -> BoxedStrategy<E> {
             4 => prop::sample::select(NAME_POOL.to_vec()).prop_map(|s| s.to_string()),
             1 => "[a-c*?]{1,3}",
             1 => (0u32..400).prop_map(|i| format!("n{i}")),
+            // a string and its escaped spelling, with and without glob characters
+            1 => prop::sample::select(vec!["a\"b", "a\\\"b", "x\\y", "x\\\\y", "draft\\?", "draft\\\\?", "q\"*", "q\\\"*"]).prop_map(|s| s.to_string()),
         ]
     };
-    let file = || prop_oneof![prop::sample::select(vec!["a", "b", "c"]).prop_map(|s| s.to_string()), (0u32..300).prop_map(|i| format!("o{i}"))];
+    let file = || prop_oneof![
+        4 => prop::sample::select(vec!["a", "b", "c"]).prop_map(|s| s.to_string()),
+        3 => (0u32..300).prop_map(|i| format!("o{i}")),
+        // names that differ only in spelling of the same path are still different requests
+        2 => prop::sample::select(vec!["/a/b", "a/b", "./a/b", "a//b", "a/./b", "a/b/", "A/B"]).prop_map(|s| s.to_string()),
+        1 => prop::sample::select(crate::dict::paths()),
+    ];
     let fmt = prop_oneof![Just(vec![FEl::F(Fld::NameNoStart), FEl::E(Esc::Newline)]), Just(vec![FEl::F(Fld::Basename), FEl::Lit("~".into()), FEl::E(Esc::Newline)])];
     let fmt2 = fmt.clone();
     if framed {
